@@ -11,16 +11,16 @@ package main
 import (
 	"bytes"
 	"context"
-	"encoding/json"
-	"os"
-	"os/exec"
 	"crypto/ecdsa"
 	"crypto/elliptic"
 	"crypto/rand"
 	"crypto/x509"
 	"crypto/x509/pkix"
+	"encoding/json"
 	"fmt"
 	"math/big"
+	"os"
+	"os/exec"
 	"sort"
 	"strconv"
 	"strings"
@@ -471,9 +471,21 @@ func runConfig(c config, probes []probe, id *ids) *cfgResult {
 	res.URLs = inst.S.URLs()
 	res.Endpoints = rowsOf(inst.S.Endpoints())
 
+	bad := 0
 	for _, p := range probes {
 		fmt.Fprintf(os.Stderr, "PROBE %s\n", p.String())
-		res.Out = append(res.Out, runProbe(inst, id, p))
+		if bad >= 3 {
+			// the server no longer gives verdicts: do not spend 8 s on each remaining probe
+			res.Out = append(res.Out, outcome{Res: "skipped"})
+			continue
+		}
+		o := runProbe(inst, id, p)
+		if o.Res == "undecided" || o.Res == "infra" {
+			bad++
+		} else {
+			bad = 0
+		}
+		res.Out = append(res.Out, o)
 	}
 	fmt.Fprintf(os.Stderr, "PROBE (after the probes)\n")
 
@@ -740,7 +752,10 @@ func evaluate(r *h.Result, d *h.Driver, res *cfgResult) {
 	for i, p := range res.Probes {
 		o := res.Out[i]
 		cs := tag + " P=" + p.String()
-		if o.Res == "infra" || o.Res == "undecided" || o.Res == "" {
+		if o.Res == "skipped" {
+			continue
+		}
+		if o.Res == "infra" || o.Res == "" {
 			r.InfraError = cs + ": " + o.Res + " " + o.Err
 			continue
 		}
